@@ -1748,6 +1748,9 @@ impl proto::Peer for Peer {
             })?);
         } else if is_connect && has_protocol {
             malformed!("malformed headers: missing path in extended CONNECT");
+        } else if !is_connect {
+            // A :path is required, except CONNECT.
+            malformed!("malformed headers: missing path");
         }
 
         b = b.uri(parts);
